@@ -70,6 +70,16 @@ def run(tier):
     bad_confs = [["-enable=ruleguard", "-@ruleguard.rules=" + os.path.join(vlib.REPO, "checkers/rules/rules.go"), "-@ruleguard.failOn=bogus"],
                  ["-go=abc"], ["-enable=nosuchChecker"], ["-enable=ruleguard", "-@ruleguard.rules=no/such/*.go"], ["-@hugeParam.sizeThreshold=x"]]
 
+    # two rule files that define the same groups: which duplicate the message names must not vary
+    os.makedirs(os.path.join(ws, "duprules"), exist_ok=True)
+    for fn in ("a.go", "b.go"):
+        open(os.path.join(ws, "duprules", fn), "w").write("package gorules\n\nimport \"github.com/quasilyte/go-ruleguard/dsl\"\n\n" + "".join(
+            "func dupGroup%d(m dsl.Matcher) {\n\tm.Match(`fi()`).Report(`g%d`)\n}\n\n" % (k, k) for k in range(1, 6)))
+    if "go-ruleguard/dsl" not in open(os.path.join(ws, "go.mod")).read():
+        with open(os.path.join(ws, "go.mod"), "a") as f:
+            f.write("\nrequire github.com/quasilyte/go-ruleguard/dsl v0.3.22\n")
+    bad_confs.append(["-enable=ruleguard", "-@ruleguard.failOn=dsl", "-@ruleguard.rules=" + os.path.join(ws, "duprules", "a.go") + "," + os.path.join(ws, "duprules", "b.go")])
+
     def badrun(args):
         outs = set()
         for _ in range(10):
@@ -82,11 +92,13 @@ def run(tier):
         res.count("config_error_message_sets", 1)
         if len(outs) > 1:
             sample = sorted(o[2].strip()[-300:] for o in outs)[:3]
-            res.add_violation("cli-nondet-error-message:" + args[-1].split("=")[0].lstrip("-@"), "go-critic check %s: %d different outputs in 10 runs" % (" ".join(args), len(outs)), {"argv": args, "outputs": sample})
+            label = "duplicate-rule-groups" if "duprules" in args[-1] else args[-1].split("=")[0].lstrip("-@")
+            res.add_violation("cli-nondet-error-message:" + label, "go-critic check %s: %d different outputs in 10 runs" % (" ".join(args), len(outs)), {"argv": args, "outputs": sample})
     # user rule files whose rules overlap on the same nodes: which rule wins (message and fix) must not depend
     # on anything but the order in which the files were given
-    with open(os.path.join(ws, "go.mod"), "a") as f:
-        f.write("\nrequire github.com/quasilyte/go-ruleguard/dsl v0.3.22\n")
+    if "go-ruleguard/dsl" not in open(os.path.join(ws, "go.mod")).read():
+        with open(os.path.join(ws, "go.mod"), "a") as f:
+            f.write("\nrequire github.com/quasilyte/go-ruleguard/dsl v0.3.22\n")
     os.makedirs(os.path.join(ws, "orules"), exist_ok=True)
     rfiles = []
     for k, (pat, msg) in enumerate([("fi()", "A: any call of fi"), ("$f()", "B: any call without arguments"), ("$x + 1", "C: plus one"), ("$x + $y", "D: any sum"),
